@@ -461,7 +461,7 @@ _ADD_RULE = {
     "C06": " Every third conversation ends in the middle of a frame (what one connection leaves unfinished must not reach later connections).",
     "C07": " GBK helpers: a returned buffer is held while another text is converted and compared afterwards.",
     "C08": " Also: every item ID 0..255 between standard items; well-known 16-bit marker values at the first offsets of the location block / payload for every media type x format of 0x0801 and at the head of 0x0200 / 0x0704 items.",
-    "C11": " Also: regscale — 1100 terminals online at once, 900 leave; routing to a remaining one, refusal of a duplicate, re-join of one that left. Shape facts managerReplyAwaited / managerTableCreatedOnce read off the source.",
+    "C11": " Also: regscale — 1100 terminals online at once, 900 leave; routing to a remaining one, refusal of a duplicate, re-join of one that left. regblock — a terminal joins while the manager is busy for 4.5 s, leaves; its key must be free afterwards. Shape facts managerReplyAwaited / managerTableCreatedOnce read off the source.",
     "C12": " Also: 0x8104 answered by 0x0104 (six parameter-list shapes), 0x9003 answered by 0x1003, responses sent back to back against a slow write callback (Q), oracles active/response-lost and active/reply-to-a-response.",
     "C13": " Also: s<n> bursts of 150 ms commands to a silent terminal (more time-outs due at once than the completion queue holds), w<ms> scripts with a write callback that takes seconds (late time-out answers), oracle active/timeout-not-delivered.",
     "C14": " Also: rereqcmd — transfers whose first packet is the connection's first message, a platform command issued and never answered while they are pending, 5.2 s of silence.",
